@@ -75,6 +75,25 @@ def gen_case(rng, tier, index):
         case["layout"] = layouts[0]
         case["op"] = {"op": "mergemany", "others": layouts[1:]}
         return case
+    if stream == "simplify" and index % 12 < 6:
+        # a union directly containing a union (the input simplify_uniontype exists for), inner arms mergeable with
+        # outer ones or not
+        leaf = [gen.P(rng.choice(["int64", "int32", "float64", "float32", "bool", "uint8"])),
+                gen.P(rng.choice(["int64", "float64", "complex128", "bool"])), {"t": "string"},
+                {"t": "list", "e": gen.P(rng.choice(["int64", "float64"]))},
+                {"t": "option", "e": gen.P("int64")}]
+        rng.shuffle(leaf)
+        inner = {"t": "union", "arms": leaf[:rng.choice([2, 2, 3])]}
+        outer_arms = leaf[3:3 + rng.choice([1, 2])] + [gen.P(rng.choice(["float64", "int64"]))]
+        pos = rng.randrange(len(outer_arms) + 1)
+        T = {"t": "union", "arms": outer_arms[:pos] + [inner] + outer_arms[pos:]}
+        n = rng.choice([0, 1, 3, 5, 8])
+        vals = gen.gen_values(rng, T, n, cfg)
+        d = gen.encode(rng, T, vals, "random", cfg)
+        case["T"], case["layout"], case["nested"] = T, d, True
+        case["op"] = {"op": "simplify_uniontype" if T["t"] == "union" else "flatten", "merge": rng.random() < 0.8,
+                      "mergebool": rng.random() < 0.3, "axis": 1}
+        return case
     if stream == "simplify":
         T, vals, d = gen.layout(rng, cfg)
         case["T"], case["layout"] = T, d
@@ -178,7 +197,15 @@ def run_case(ctx, case):
         if out.kind == "error" and "bridge: class has no" in (out.msg or ""):
             ctx.cover("oracle", "not-offered-by-class")
             return
-        cc.compare(ctx, case, out, lambda: v)
+        if op["op"] == "flatten":
+            cc.compare(ctx, case, out, lambda: [y for x in v for y in x])
+        else:
+            cc.compare(ctx, case, out, lambda: v)
+        if case.get("nested") and out.kind == "value" and out.handle is not None:
+            ctx.count("nested_unions_simplified")
+            ve = b.validityerror(out.handle)
+            if ve != "":
+                ctx.violation("invalid-result", {"op": op, "validityerror": ve[:300]})
     ctx.sample({"stream": stream, "op": op, "type": gen.typestr(case["T"]), "out": out.brief()}, cap=6)
 
 
